@@ -214,3 +214,7 @@ def sat_jobs(out, tier):
                         ('level_closed', 'self->trail_lim.n == %s - 1 && self->decisions.n == %s - 1' % (S('trail_lim.n'), S('decisions.n'))),
                         ('every_theory_popped_once', 'xt_th_pops == self->theories.n')],
                assigns='__exc, xt_th_pops, self->assigns, self->level, self->reason, self->trail, self->trail_lim, self->decisions'))
+
+
+# what the evidence file says is NOT decided by this module, and what it assumes
+INFO = {'not_under_contract': ['rdl_theory undo layers', 'ov_theory and lra_theory tableau/pivot state', 'solver / core level push-pop (flaws, resolvers)', 'the re-propagation loop of idl_theory::propagate(from,to,dist) over registered undecided constraints'], 'assumptions': ['predecessor walks terminate (acyclic predecessor rows) - a precondition of the propagate(const lit&) job, not yet an invariant proved for the edge step', 'idl value listeners and lra propagation callbacks do not touch the logged state']}
